@@ -874,6 +874,9 @@ def _extent(kids):
 
 
 # ------------------------------------------------------------------------ normalising lark results
+_IN_PROGRESS = object()
+
+
 def norm_tree(t, named=None, pos=True, _memo=None):
     """lark Tree/Token/None -> shaped tuple.  named: set of named terminal names (others compare by value only).
     Shared sub-trees (explicit-ambiguity results are DAGs) are normalised once and stay shared."""
@@ -881,7 +884,11 @@ def norm_tree(t, named=None, pos=True, _memo=None):
     if _memo is None: _memo = {}
     if hasattr(t, 'children') and hasattr(t, 'data'):
         got = _memo.get(id(t))
+        if got is _IN_PROGRESS:
+            from .harness import Violation
+            raise Violation('parse() returned a tree that contains itself', node=str(t.data))
         if got is None:
+            _memo[id(t)] = _IN_PROGRESS
             got = _memo[id(t)] = ('N', str(t.data), tuple(norm_tree(c, named, pos, _memo) for c in t.children))
         return got
     if hasattr(t, 'type'):
